@@ -31,8 +31,8 @@ TIERS = {
 }
 RULE = ("cases 0..69903 are the systematic sweep of every history of length 1..4 over {UNSEG,FIRST,CONT,LAST} x 2 APIDs x "
         "{in-sequence, gap} (a warm-up for short histories); later cases draw, from one seed, either a direct history "
-        "(flag, APID, counter step per arrival; up to 60 arrivals, 1-4 APIDs incl. 0 and 2047, counters starting near "
-        "16383) or a producer/multiplexer/space-link simulation with drop, dup, delay-reorder, flag-flip, count-jump and "
+        "(flag, APID, counter step per arrival; up to 60 arrivals, 1-4 APIDs incl. 0 and 2047 -- or 33-48 APIDs each with "
+        "an open group --, counters starting near 16383, version/type/secondary-header bits varying between segments) or a producer/multiplexer/space-link simulation with drop, dup, delay-reorder, flag-flip, count-jump and "
         "producer-restart faults; plus secondary-header length, skip prefix, source kind, read size. non-trivial = the "
         "history contains at least one FIRST/CONT/LAST arrival; distinct = distinct choice lists")
 COMPONENTS = {
@@ -53,7 +53,7 @@ ASSUMPTIONS = [
 ]
 EXPECTED_PROBES = ("wrap_in_group", "three_apids_open", "orphan_after_complete", "orphan_after_rejected", "sh_gt_segment",
                    "u_while_open", "superseded_first", "group_emitted", "group_gap_rejected", "drop", "dup", "reorder",
-                   "flag_flip", "count_jump", "producer_restart", "link_cut")
+                   "flag_flip", "count_jump", "producer_restart", "link_cut", "header_bits_vary", "wide_open_groups")
 COV_UNIVERSE = 32
 
 U, F, C, L = factory.FLAG_UNSEG, factory.FLAG_FIRST, factory.FLAG_CONT, factory.FLAG_LAST
@@ -129,13 +129,22 @@ def run(ch, render=False):
         srckind = "socket1"
         rs = 1 << 17
         starts = [16382, 3]
+        wide = False
     else:
         apids = ch.pick(APID_SETS, "apids")
         sh = ch.weighted([(4, 0), (1, 1), (1, 2), (1, 4), (1, 8), (1, 3), (1, 100)], "sh")
         k = ch.weighted([(8, 0), (1, 4), (1, 1)], "k")
         srckind = ch.weighted([(6, "socket1"), (2, "bytes"), (2, "file"), (2, "socketfrag")], "source")
         rs = ch.pick((None, 1 << 17, 7, 1, 4096), "read_size") if srckind != "socket1" else (1 << 17)
+        # "any number of APIDs": some direct histories open a group on each of 33-48 APIDs before anything else
+        wide = mode == "direct" and ch.chance(1, 10, "wide")
+        if wide:
+            base = ch.pick((0, 1000, 2000), "wide_base")
+            apids = tuple(range(base, base + 33 + ch.draw(16, "wide_n")))
         starts = [ch.pick((16382, 0, 16383, 16380, 100, 8191), "start") for _ in apids]
+    # header bits other than APID / flags / count may differ between the segments of one APID (the statement speaks
+    # of "the same APID" only): drawn per arrival in a share of the runs
+    hdr_vary = mode != "direct_simple" and ch.chance(1, 3, "hdr_vary")
 
     # ---- build the history ---------------------------------------------------------------
     # an arrival is [apid, flag, count, packet_bytes]; packet bytes are built at delivery time so the
@@ -145,7 +154,14 @@ def run(ch, render=False):
 
     def make_packet(idx, apid, flag, count, dlen):
         body = bytes(((idx >> (8 * (j & 1))) & 0xFF) ^ (0x5A if j >= 2 and (j & 2) else 0) for j in range(dlen))
-        return factory.build_packet(0, 0, 1 if sh else 0, apid, flag, count, body)
+        version, type_, shf = 0, 0, (1 if sh else 0)
+        if hdr_vary:
+            version = ch.weighted([(5, 0), (1, 7), (1, 3)], "hv_version")
+            type_ = ch.weighted([(4, 0), (1, 1)], "hv_type")
+            shf = ch.weighted([(3, shf), (1, 1 - shf)], "hv_shf")
+            if version or type_ or shf != (1 if sh else 0):
+                w.probe("header_bits_vary")
+        return factory.build_packet(version, type_, shf, apid, flag, count, body)
 
     def deliver(apid, flag, count, dlen):
         idx = len(arrivals)
@@ -156,8 +172,15 @@ def run(ch, render=False):
         if mode == "direct":
             n = 1 + ch.draw(ch.pick((6, 12, 30, 60), "nmax"), "n")
         counters = list(starts)
+        if wide:
+            w.probe("wide_open_groups")
+            for ai in range(len(apids)):
+                counters[ai] = (counters[ai] + 1) % 16384
+                deliver(apids[ai], F, counters[ai], 3)
         for _ in range(n):
             flag = FLAG_ORDER[ch.draw(4, "flag")]
+            if wide:
+                flag = ch.weighted([(3, L), (2, C), (1, F), (1, U)], "wflag")
             ai = ch.draw(len(apids), "apid")
             if mode == "direct_simple":
                 step = (1, 2)[ch.draw(2, "seq")]
